@@ -37,6 +37,7 @@ RULE = ('one evaluation = one seeded run: (hist) a 20-150 call Cache history wit
 RULE += ' ' + 'A third of the object scenarios build the FanoutCache / Deque / Index without a directory (own temporary directory) and collect the earlier handles after every lifecycle event.'
 RULE += ' ' + 'The fixture holds handles pickled by the released version (Cache, FanoutCache, Deque, Index), which must load and lead to the same collections; the FanoutCache object scenario keeps a named cache and a named index with settings of their own while the parent is reopened with explicit settings; JSONDisk histories call iterkeys().'
 RULE += ' ' + "A plain Cache object scenario loads the handle's first pickle again later while another handle changes stored settings in between."
+RULE += ' ' + 'Objects that make their own directory run their database with the default pragmas; a stale handle may write its value back after another handle changed a setting.'
 ASSUMPTIONS = ['a real fork() carrying an open SQLite handle is not simulated; the pid-change seam checks the library\'s reaction to it',
                'the fixture was written on POSIX by the pinned release (fixtures/make_fixture.py)']
 PROBES = ('lifecycle', 'fork', 'thread_stretch', 'pickle', 'fixture_items', 'newproc', 'move', 'own_temporary_directory', 'released_pickles_loaded', 'parent_reopened_with_settings', 'old_pickle_loaded', 'setting_changed_by_other_handle', 'stale_handle_writes_its_value_back')
@@ -481,6 +482,15 @@ def run_objects(case):
 
             def extra(o, when):
                 pass
+        if cfg.get('temp') and which in ('fanout', 'deque', 'index'):
+            # an object that made its own directory is configured like one that was given a directory: the defaults
+            inner = obj._shards[0] if which == 'fanout' else obj.cache
+            odd = {k: getattr(inner, k) for k, v in dc.DEFAULT_SETTINGS.items()
+                   if k.startswith('sqlite_') and getattr(inner, k) != v}
+            if odd:
+                violations.append({'rule': 'C18/setting-not-persisted', 'sig': 'own-directory-defaults',
+                                   'detail': 'made without a directory, the %s runs its database with %r (defaults %r)' % (
+                                       which, odd, {k: dc.DEFAULT_SETTINGS[k] for k in odd})})
         pid = 1
         for i, ev in enumerate(cfg['events']):
             for j in range(rng.randint(1, 3)):
